@@ -153,6 +153,38 @@ def check(case):
     fetched = 0
     failed_root = 0
     tag = node['op']
+    if case['mode'] == 'resume':
+        # the consumer keeps its iterator after an error and asks again ("skip broken examples" loops): whatever the
+        # plain pipeline does then (end, or go on), the profiled one does the same - judged against a second,
+        # independently built plain pipeline, not against the model
+        def drive_on(ds):
+            out = []
+            it = iter(ds)
+            try:
+                for _ in range(m.n + 4):
+                    try:
+                        out.append(('v', progs.token(next(it))))
+                    except StopIteration:
+                        out.append(('end',))
+                        if len(out) >= 2 and out[-2] == ('end',):
+                            break
+                    except observe.PASS_THROUGH:
+                        raise
+                    except BaseException as e:  # noqa
+                        e.__traceback__ = None
+                        out.append(('err', type(e).__name__, repr(e.args)))
+            finally:
+                if hasattr(it, 'close'):
+                    it.close()
+            return out
+        P2 = B.build(spied, B.Env())
+        if case.get('user_stage'):
+            P2 = UserStage(P2)
+        plain, prof = drive_on(P2), drive_on(W)
+        if not m.unordered and plain != prof:
+            raise Violation(f'resume-after-error|{tag}', f'{desc}\nnext() repeated after errors: the plain pipeline '
+                                                         f'gives {plain}\nthe profiled pipeline gives {prof}')
+        return any(x[0] == 'err' for x in plain)
     if case['mode'] == 'full':
         got, exc, exhausted = observe.take(lambda: W, m.n + 3)
         observe.check_stream(got, exc, exhausted, m, tag, 'wrapped-iter')
@@ -418,6 +450,10 @@ def st_case(draw):
         if mm.has_raise or mm.unordered or mm.iter_taint or not mm.sized or any(
                 n['op'] in ('prefetch', 'parmap') for n in progs.walk(node)):
             mode = 'full'
+    if mode in ('full', 'partial') and draw(st.integers(0, 2)) == 0:
+        mm = ev(node)
+        if mm.has_raise and not mm.unordered and not mm.iter_taint:
+            mode = 'resume'
     case = {'ast': node, 'mode': mode}
     if draw(st.integers(0, 5)) == 0:
         case['user_stage'] = True
@@ -528,7 +564,7 @@ def run_shard(tier, idx, nshards, rec, known):
         node = case['ast']
         m = ev(node)
         ops = set(progs.ops(node))
-        nt = bool(done) and progs.size(node) >= 3 and (bool(ops & set(progs.NARY)) or case['mode'] in ('partial', 'dual')
+        nt = bool(done) and progs.size(node) >= 3 and (bool(ops & set(progs.NARY)) or case['mode'] in ('partial', 'dual', 'resume')
                                                       or m.has_raise or 'catch' in ops)
         cls = progcheck.classes_of(node, m) | {'mode:' + case['mode']}
         if case.get('user_stage'):
